@@ -11,6 +11,8 @@ def map_expr_vars(e, f):
     if e["op"] == "var":
         e["n"] = f(e["n"])
         return e
+    if e["op"] == "blk":
+        e["n"] = f(e["n"])          # the binder of the block is renamed with its uses
     for k in ("a", "b", "c"):
         if k in e:
             e[k] = map_expr_vars(e[k], f)
@@ -88,6 +90,8 @@ def map_item_vars(it, f, frel=lambda r: r):
 def expr_vars(e):
     if e["op"] == "var":
         return {e["n"]}
+    if e["op"] == "blk":
+        return expr_vars(e["a"]) | (expr_vars(e["b"]) - {e["n"]})
     s = set()
     for k in ("a", "b", "c"):
         if k in e:
